@@ -159,6 +159,26 @@ def rule_err(ctx: Ctx) -> RuleReport:
                 rep.ok({"raise": short(r, 50), "carries": "status_code, url"})
             else:
                 rep.fail(Finding("C18-ERR", CL, send.qual, short(r, 80), "the request error does not carry the status code and the URL of the failed request", line=r.lineno))
+    # a request error that carries a status is not caught again and replaced on its way out of _send
+    for r in [n for n in walk_own(send.node) if isinstance(n, ast.Raise) and n.exc is not None and raised_class(n) in fam]:
+        kws = {k.arg: k.value for k in r.exc.keywords} if isinstance(r.exc, ast.Call) else {}
+        sc = kws.get("status_code")
+        if sc is None or (isinstance(sc, ast.Constant) and sc.value is None):
+            continue
+        masked = None
+        for t in _enclosing_handlers(send.node, r):
+            for h in t.handlers:
+                if set(_hnames(h)) & ({raised_class(r), "SharePointError", "Exception", "BaseException"}):
+                    if not (len(h.body) == 1 and isinstance(h.body[0], ast.Raise) and h.body[0].exc is None):
+                        masked = h
+                    break
+            if masked is not None:
+                break
+        if masked is None:
+            rep.ok({"raise": short(r, 50), "status_reaches_caller": True})
+        else:
+            rep.fail(Finding("C18-ERR", CL, send.qual, "masked: " + anorm(r.exc.func if isinstance(r.exc, ast.Call) else r.exc, send.node) + " status_code=" + anorm(sc, send.node),
+                             f"the request error raised with status_code={short(sc, 30)} is raised inside a try whose `except {', '.join(_hnames(masked))}` handler (line {masked.lineno}) catches it and raises something else: the caller sees an error without the HTTP status", line=r.lineno))
     # HTTP status of the HTTPError path
     for t in [n for n in walk_own(send.node) if isinstance(n, ast.Try)]:
         for h in t.handlers:
@@ -481,6 +501,7 @@ def rule_part(ctx: Ctx) -> RuleReport:
         if folder_id:
             yield from self._walk_drive_items(site_id, folder_id, drive_id=drive_id, parent_path=new_parent_path)
 '''
+    _walk_necessary(ctx, rep, wk)
     r = compare_function(wk.node, tmpl)
     if r == "equal":
         rep.ok({"_walk_drive_items": "all files of the folder, then every sub-folder with an id, parent path = parent/name"})
@@ -495,6 +516,53 @@ def rule_part(ctx: Ctx) -> RuleReport:
         else:
             raise AnalysisError("C18-PART: _walk_drive_items no longer has the recognised structure")
     return rep
+
+
+def _walk_necessary(ctx, rep, wk):
+    """Template-independent part: every listed file is yielded, every folder with an id is entered (skip-path enumeration)."""
+    from sa.engine.skips import skip_paths
+
+    cfg = ctx.cfg(wk)
+    locs = local_names(wk.node)
+    loops = {}
+    for l in walk_own(wk.node):
+        if isinstance(l, ast.For) and isinstance(l.iter, ast.Call):
+            d = dotted(l.iter.func) or ""
+            if d in ("self._list_items_paginated", "self._get_folders_from_url"):
+                loops.setdefault(d, []).append(l)
+    if any(len(loops.get(k, [])) != 1 for k in ("self._list_items_paginated", "self._get_folders_from_url")):
+        raise AnalysisError("C18-PART: _walk_drive_items no longer has one loop over the files and one over the folders of a listing")
+    fl, dl = loops["self._list_items_paginated"][0], loops["self._get_folders_from_url"][0]
+
+    def stores(loop, pred):
+        out = set()
+        for nd in cfg.nodes:
+            if nd.ast is not None and nd.kind == "stmt" and any(x is nd.ast for x in ast.walk(loop)) and nd.ast is not loop and any(pred(x) for x in ast.walk(nd.ast)) and not isinstance(nd.ast, (ast.For, ast.While, ast.If, ast.Try, ast.With)):
+                out.add(nd.id)
+        return out
+
+    lv = fl.target.id if isinstance(fl.target, ast.Name) else None
+    st = stores(fl, lambda x: isinstance(x, ast.Yield) and isinstance(x.value, ast.Name) and x.value.id == lv)
+    sk = skip_paths(cfg, fl, st) if st else None
+    if sk is None:
+        raise AnalysisError("C18-PART: the file loop of _walk_drive_items does not yield its items")
+    if sk:
+        why = " and ".join(f"{anorm(ast.parse(t, mode='eval').body, rename=locs) if t != 'exc' else 'exception'} is {b}" for t, b in sk[0][-2:]) or "unconditionally"
+        rep.fail(Finding("C18-PART", CL, wk.qual, f"file not yielded when {why}", f"a file of the listing reaches the next iteration without being yielded ({why}): it is missing from list_all_files", line=fl.lineno))
+    else:
+        rep.ok({"file_loop": "every listed file is yielded"})
+    idv = {n.targets[0].id for n in ast.walk(dl) if isinstance(n, ast.Assign) and len(n.targets) == 1 and isinstance(n.targets[0], ast.Name) and isinstance(n.value, ast.Call) and isinstance(n.value.func, ast.Attribute) and n.value.func.attr == "get"
+           and isinstance(n.value.func.value, ast.Name) and isinstance(dl.target, ast.Name) and n.value.func.value.id == dl.target.id and n.value.args and isinstance(n.value.args[0], ast.Constant) and n.value.args[0].value == "id"}
+    st = stores(dl, lambda x: isinstance(x, ast.Call) and (dotted(x.func) or "") == "self._walk_drive_items")
+    sk = skip_paths(cfg, dl, st) if st else None
+    if sk is None:
+        raise AnalysisError("C18-PART: the folder loop of _walk_drive_items does not recurse")
+    bad = [rs for rs in sk if not any(t in idv and b == "false" for t, b in rs)]
+    if bad:
+        why = " and ".join(f"{anorm(ast.parse(t, mode='eval').body, rename=locs) if t != 'exc' else 'exception'} is {b}" for t, b in bad[0][-2:]) or "unconditionally"
+        rep.fail(Finding("C18-PART", CL, wk.qual, f"folder not entered when {why}", f"a folder of the listing reaches the next iteration without being walked ({why}); the only accepted reason is a folder without an id: every file below it is missing from the listing", line=dl.lineno))
+    else:
+        rep.ok({"folder_loop": "every folder with an id is walked", "skip_paths": len(sk)})
 
 
 def rule_prop(ctx: Ctx) -> RuleReport:
